@@ -57,6 +57,11 @@ def skeletons(tier):
     progs.append(("late-helper", {
         "funcs": [mkfunc("R", calls=[call("K")], rich=False), mkfunc("K", kind="plain", reads=["LV"])],
         "vars": {"LV": 3}, "late": ["LV"], "order": ["R", "K"]}))
+    # functions whose only default value is a keyword-only one
+    ko = {"funcs": [mkfunc("R", calls=[call("D")], rich=False), mkfunc("D", kind="plain", calls=[call("D2")], rich=False), mkfunc("D2", rich=False)], "vars": {}}
+    for f_ in ko["funcs"]:
+        f_["no_pos_default"] = True
+    progs.append(("keyword-only-default-only", ko))
     # an attribute that does not exist yet on the object a dotted name resolves to (read guarded), added later
     progs.append(("late-attribute", {
         "funcs": [mkfunc("R", calls=[call("D")], reads=["cfg.Z?", "Cfg.W?"], rich=False), mkfunc("D", kind="plain", reads=["cfg.Z?"], rich=False)],
